@@ -1,5 +1,6 @@
 import BlochVerif.Lex.Proofs
 import BlochVerif.Generated.Keywords
+import BlochVerif.Lex.Operators
 /-!
 # C15 — the lexer is lossless and token positions are exact
 
@@ -71,5 +72,17 @@ theorem tokenize_total (kw : List Char → Option TokenType) (src : List Char) :
 example : tokenize (fun _ => none) ['"', 'a', '\n', 'b', '"', ' ', 'x'] =
     .ok [⟨.StringLiteral, ['"', 'a', '\n', 'b', '"'], ⟨1, 1⟩⟩, ⟨.Identifier, ['x'], ⟨2, 4⟩⟩, ⟨.Eof, [], ⟨2, 5⟩⟩] := by
   rfl
+
+end BlochVerif.Props.C15
+
+/-! ## the operator tokens are the source's (translator output, regenerated on every run) -/
+namespace BlochVerif.Props.C15
+open BlochVerif.Lex
+
+/-- the model's operator scanner — which one- and two-character tokens exist, which second character extends which first,
+in which order, with which text — is the `switch (c)` of `Lexer::scanToken` as the source has it now -/
+theorem operator_scanner_is_the_source_switch (c : Char) (rest : List Char) :
+    scanOp c rest = scanOpBy BlochVerif.Generated.operatorTable c rest :=
+  scanOp_eq_table c rest
 
 end BlochVerif.Props.C15
